@@ -73,6 +73,16 @@ VerifyCases(_u) ==
     { [init |-> S, src |-> "remote", dst |-> "cache", req |-> r, shallow |-> sh, idx |-> FALSE, F |-> {}, verify |-> v] :
         S \in CorruptSrc(0), r \in ReqClosed, sh \in BOOLEAN, v \in BOOLEAN }
 
+(***************************** C11 / C12 : stale remote index **********************)
+\* the cache is complete; a first indexed push of r1 fills the index; E is then deleted from the remote behind the
+\* library's back; the final indexed query or push (of any request) meets an index that is stale in E
+PushFull == [s \in Stores |-> IF s = "cache" THEN FullOf("ok_p") ELSE EmptyStore]
+StaleCases(_u) ==
+    { [init |-> PushFull, r1 |-> r1, sh1 |-> sh1, E |-> E, kind |-> k, ids |-> ids, shallow |-> sh] :
+        r1 \in {{"d1", "f1", "f2"}, {"d1", "d2", "f1", "f2", "f3"}}, sh1 \in BOOLEAN,
+        E \in {G \in SUBSET Oids : Cardinality(G) \in {1, 2}}, k \in {"status", "transfer"},
+        ids \in ReqAll, sh \in BOOLEAN }
+
 GenInit == Init
 GenNext == UNCHANGED vars
 What == IOEnv.GEN_WHAT
@@ -80,6 +90,7 @@ Out == CASE What = "xfer"   -> [push |-> PushCases(0), fetch |-> FetchCases(0)]
          [] What = "gc"     -> [gc |-> GcCases(0)]
          [] What = "status" -> [status |-> StatusCases(0), check |-> CheckCases(0)]
          [] What = "c11"    -> [c11 |-> C11Cases(0), verify |-> VerifyCases(0)]
+         [] What = "stale"  -> [stale |-> {c \in StaleCases(0) : c.E \subseteq c.r1}]
          [] What = "c11quick" -> [c11 |-> C11Quick(0), verify |-> VerifyCases(0)]
 ASSUME JsonSerialize(IOEnv.GEN_OUT, Out)
 =============================================================================
